@@ -15,7 +15,7 @@ trap 'rm -rf /verif/evidence; mkdir -p /verif/evidence; cp -a "$EVBAK"/. /verif/
 if go build ./... 2>/tmp/mutant-build.log && go test -count=1 ./... >/tmp/mutant-test.log 2>&1; then
   echo "suite: PASS"
 else
-  echo "suite: FAIL (mutant not admissible)"; tail -5 /tmp/mutant-test.log /tmp/mutant-build.log
+  echo "suite: FAIL (mutant not admissible)"; tail -n 5 /tmp/mutant-test.log; tail -n 5 /tmp/mutant-build.log
 fi
 cd /verif
 for c in "$@"; do
